@@ -341,8 +341,12 @@ func (w *World) probesFor(f *fieldInfo, objs map[string]*Rec) []interface{} {
 			add(conv(math.Nextafter(k.F, math.Inf(1))))
 			add(conv(math.Nextafter(k.F, math.Inf(-1))))
 		}
-		for _, v := range []float64{-math.MaxFloat64, math.MaxFloat64, 5e-324, 0, math.Copysign(0, -1), 0.1} {
+		for _, v := range []float64{-math.MaxFloat64, math.MaxFloat64, 5e-324, 0, math.Copysign(0, -1), 0.1, math.Inf(1), math.Inf(-1)} {
 			add(conv(v))
+		}
+		add(math.NaN()) // well typed, unordered
+		if f.GoType == "float32" {
+			add(float32(math.NaN()))
 		}
 	case "string":
 		for _, k := range keys {
